@@ -17,7 +17,11 @@ IsHierFn(fn) == fn \in {"hinstances", "hports", "hpins", "hcables", "hwires"}
 ElemId(c, e) == IF IsHierFn(c.fn) THEN e[Len(e)][2] ELSE e[2]
 C13_Expected(c, unf, vals) ==
     {unf[i] : i \in {j \in ExpectedIdx(vals, c.pats, c.isCase) : Filt(c.filt, ElemId(c, unf[j]))}}
-C13_Restriction(c, ret, unf, vals)  == c.op = "q" => SeqSet(ret) = C13_Expected(c, unf, vals)
+(* under the EDIF policy an exact identifier compares case-insensitively (candidates of the EDIF query scope carry fold = TRUE) *)
+Folding(c) == "fold" \in DOMAIN c /\ c.fold
+C13_ExpectedF(c, unf, vals) ==
+    {unf[i] : i \in {j \in ExpectedIdx(vals, c.pats, IF Folding(c) THEN FALSE ELSE c.isCase) : Filt(c.filt, ElemId(c, unf[j]))}}
+C13_Restriction(c, ret, unf, vals)  == c.op = "q" => SeqSet(ret) = C13_ExpectedF(c, unf, vals)
 C13_NoDuplicates(c, ret, unf)       == c.op = "q" => NoDup(ret) /\ NoDup(unf)
 C13_PatternOrder(c, ret, retPerm)   == c.op = "q" => SeqSet(retPerm) = SeqSet(ret)
 C13_FastSlowAgree(c, ret, retSlow)  == c.op = "q" => SeqSet(retSlow) = SeqSet(ret)
@@ -27,7 +31,9 @@ QueryFilterClauses(c, r) ==
       << <<"C13_Restriction", C13_Restriction(c, r.ret, r.unf, r.vals)>>,
          <<"C13_NoDuplicates", C13_NoDuplicates(c, r.ret, r.unf)>>,
          <<"C13_PatternOrder", C13_PatternOrder(c, r.ret, r.retPerm)>>,
-         <<"C13_FastSlowAgree", C13_FastSlowAgree(c, r.ret, r.retSlow)>> >>
+         \* without the accelerated lookup an exact identifier is compared as spelt: for folding queries the two paths
+         \* differ by design wherever only the case differs, so only "slow is contained in fast" is asked there
+         <<"C13_FastSlowAgree", IF Folding(c) THEN SeqSet(r.retSlow) \subseteq SeqSet(r.ret) ELSE C13_FastSlowAgree(c, r.ret, r.retSlow)>> >>
     ELSE <<>>
 
 ---------------------------------------------------------------------------
@@ -74,4 +80,12 @@ DirectProduct(s) ==
     IN {[op |-> "q", fn |-> pr[1], root |-> pr[2], sel |-> "INSIDE", rec |-> rc, key |-> key, pats |-> ps,
          isCase |-> TRUE, isRe |-> FALSE, filt |-> "none"] :
             <<pr, rc, key, ps>> \in pairs \X BOOLEAN \X {"name", "k", "eid"} \X patseqs}
+(* the EDIF-policy query family: exact identifier lookups (as spelt, case-swapped, and for identifiers that an *)
+(* element no longer has) from the roots that own a naming scope                                                *)
+EdifDirectProduct(s) ==
+    LET vals == {NameChars[nm] : nm \in DOMAIN NameChars}
+        pairs == {<<"libraries", <<"N", x>>>> : x \in IdsN(s)} \cup {<<"definitions", <<"L", x>>>> : x \in IdsL(s)}
+                 \cup {<<fn, <<"D", x>>>> : <<fn, x>> \in {"instances", "ports", "cables"} \X IdsD(s)}
+    IN {[op |-> "q", fn |-> pr[1], root |-> pr[2], sel |-> "INSIDE", rec |-> FALSE, key |-> "eid", pats |-> <<Exact(v)>>,
+         isCase |-> TRUE, isRe |-> FALSE, filt |-> "none", fold |-> TRUE] : <<pr, v>> \in pairs \X vals}
 =============================================================================
